@@ -6,7 +6,8 @@ from .asa import ADDR, RADDR, GW, RGW, SVC, PORTNAME, RPORT, SVCX, RSVCX
 WNETS = {"n12": ("10.1.1.0", "0.0.0.3"), "n34": ("10.1.2.0", "0.0.0.3"), "n14": ("10.1.0.0", "0.0.255.255")}
 RWNETS = {v: k for k, v in WNETS.items()}
 MNETS = {"n12": ("10.1.1.0", "255.255.255.252"), "n34": ("10.1.2.0", "255.255.255.252"),
-         "n14": ("10.1.0.0", "255.255.0.0")}
+         "n14": ("10.1.0.0", "255.255.0.0"),
+         "n13": ("10.1.0.0", "255.255.255.0")}      # routes only: the network address of n14 with a longer mask
 RMNETS = {v: k for k, v in MNETS.items()}
 IFNAME = {"E0": "Ethernet0", "E1": "Ethernet1", "E2": "Ethernet2", "E3": "Ethernet3"}
 RIFNAME = {v: k for k, v in IFNAME.items()}
